@@ -28,6 +28,7 @@ def run(rep):
     rep.add_tlc(res, "Scat")
     design_check(rep, res, "Scat")
     scatchecks.forward_checks(rep, fnd, "C08", rep.tier)
+    scatchecks.forward_regimes(rep, "C08", rep.tier)
     rep.assumptions += ["value equality is required on even-sized (first order) / multiple-of-8 (second order) images; other sizes: shape and sign",
                         "the linear DTCWT levels are C03's obligation"]
 
